@@ -32,5 +32,10 @@ def run():
                    "the grammar is the set of productions plus start_symbol_name: the order in which the symbols are "
                    "declared in the productions dict is an input dimension (start symbol first / in the middle / last) "
                    "but not part of the spec; the order of the alternatives of one symbol stays canonical",
+                   "the text argument is a str or a list of lines (the two documented forms; other iterables are not "
+                   "explored); 'the text' of a call is what the object holds at the moment of the call: a list edited "
+                   "in place by the caller between two calls is a new text, the unchanged list is the same text; the "
+                   "list is never modified while a parse() call is running; lines carry no line terminators, tokens "
+                   "are separated by blanks or line ends",
                    "bounded: grammar families and string length as in the rule; each parse under a budget of "
                    "%d parse-loop events / %.0f s" % (driver.STEP_BUDGET, driver.WALL_BUDGET)], t0)
